@@ -402,7 +402,9 @@ def FieldGood (ext : Ext) (d : Data) (args : List Nat) (m : Marker) (rp : List F
     | .computed l => ∃ vars0,
         (∀ x, x ∈ args ∨ x ∈ boundVars rp → getVar vars0 x = getVar m.vars x) ∧
         evalLen ext d s vars0 l = .ok (e - s)
-    | .condComputed _ l => ∃ vars0, evalLen ext d s vars0 l = .ok (e - s)
+    | .condComputed _ l => ∃ vars0,
+        (∀ x, x ∈ args ∨ x ∈ boundVars rp → getVar vars0 x = getVar m.vars x) ∧
+        evalLen ext d s vars0 l = .ok (e - s)
 
 /-- adding an entry for a fresh field does not change the chain of the preceding fields -/
 theorem prevEnd_fresh {m m' : Marker} (rp : List FieldP) (fid : Nat)
@@ -571,7 +573,7 @@ theorem field_step {ext : Ext} {d : Data} (hL : d.len < MAXU) (args : List Nat)
         · simp [prevEnd, fieldOf, St.marker, condRange, Marker.start, Marker.olen, lookup_cons_self, hc, hx]
         · simp [FieldGood, fieldRange, fieldOf, St.marker, condRange, Marker.start, Marker.olen,
             lookup_cons_self, hc]
-          refine ⟨by omega, st.vars, ?_⟩
+          refine ⟨by omega, st.vars, fun x _ => rfl, ?_⟩
           first | exact hn | (have : st.pos + n - st.pos = n := by omega
                               rw [this]; exact hn)
       · simp [lookup_cons_self] at hn'
@@ -632,7 +634,15 @@ theorem FieldGood_congr {ext : Ext} {d : Data} {args : List Nat} {m m' : Marker}
       rcases hx with hx | hx
       · exact hv x (Or.inl hx)
       · exact hv x (Or.inr (Or.inl hx))
-    | condComputed c l => exact h3
+    | condComputed c l =>
+      simp only [] at h3 ⊢
+      obtain ⟨vars0, ha, hl⟩ := h3
+      refine ⟨vars0, ?_, hl⟩
+      intro x hx
+      rw [ha x hx]
+      rcases hx with hx | hx
+      · exact hv x (Or.inl hx)
+      · exact hv x (Or.inr (Or.inl hx))
 
 theorem boundVars_cons (fp : FieldP) (rest : List FieldP) :
     boundVars (fp :: rest) = (match fp.readsVar with | some x => x :: boundVars rest | none => boundVars rest) := by
